@@ -302,6 +302,7 @@ impl Prop for Equiv {
         match build(case) {
             Built::U(af, labels) => self.run_generic(&af, &labels, case, rec),
             Built::S(af, labels) => self.run_generic(&af, &labels, case, rec),
+            Built::C(af, labels) => self.run_generic(&af, &labels, case, rec),
         }
     }
 }
